@@ -35,9 +35,10 @@ Definitions (n = bit width of the type, values are mathematical integers in the 
 property, never a failure.
 
 Every function works on plain ints (textbook definition, used by the concrete replay) and on
-symx SymInt (z3 bit-vector operators of width n for / % << >> rol ror; unbounded-integer
-arithmetic followed by reduction for + - *; the engine guarantees its W-bit arithmetic does not
-overflow).
+symx SymInt: + - * & | ^ are computed in unbounded integers (the engine guarantees that its W-bit
+arithmetic does not overflow) and then reduced into the type; / and % divide the magnitudes
+|a|, |b| (non-negative integers, where quotient and remainder are unambiguous) and attach the
+sign; << >> rol ror use the z3 bit-vector operator of width n on the two's complement patterns.
 """
 import z3
 from symx import core
